@@ -9,6 +9,8 @@ import Mathlib.Tactic.SplitIfs
 import Mathlib.Tactic.Positivity
 import Mathlib.Tactic.Push
 import Mathlib.Data.Rat.Floor
+import RQ.Lemmas.WorldApi
+import RQ.Lemmas.WorldD
 
 namespace RQ.Props.C15
 open RQ.Q
@@ -815,5 +817,33 @@ theorem auto_switch_without_cash (ins : SzIns) (amount : R) (posQty closable q :
   rw [hmax]
   unfold orderValue
   simp only [gt_iff_lt, lt_irrefl, if_false, hq]
+
+
+/-! ### the sizing APIs inside the composed world (`RQ/Model/WorldApi.lean`) -/
+
+/-- **the order-sizing APIs add no behaviour of their own**: a whole run in which the strategy calls the sizing APIs (sized by the
+model on the world's own state) is a run of the base world on SOME list of submissions, cancels and day events.  Whatever is proved
+for every input list of `World.run` — the account refinement (C01), the reserve invariant (C09), live books (C04), prescribed trade
+prices (C05), limits (C06) — holds for every run that goes through the APIs. -/
+theorem world_api_run_is_base_run (w : World) (ac : ApiCfg) (is : List WIn2) : ∃ ins : List WIn, w.run2 ac is = w.run ins :=
+  RQ.Lemmas.WorldApi.run2_is_run w ac is
+
+/-- an API call is exactly: size on the present state, then submit what was created, in order -/
+theorem world_api_is_submissions (w : World) (ac : ApiCfg) (c : ApiCall) (ids : List Nat) :
+    w.api ac c ids = w.run (w.apiInputs ac c ids) := rfl
+
+
+/-- what a stock sizing call hands to the validators, on EVERY state of every run: at most one order, of a positive quantity, on the
+instrument of the call, a BUY that opens or a SELL that closes, carrying the caller's limit price -/
+theorem world_stock_api_creates (w : World) (ac : ApiCfg) (api : StockApi) (ins : Nat) (x : R) (limit : Option R) :
+    (w.sized ac (.stock api ins x limit)).length ≤ 1 ∧
+    ∀ o ∈ w.sized ac (.stock api ins x limit),
+      0 < o.2.2.2.1 ∧ o.1 = ins ∧ o.2.2.1 = (if o.2.1 then Effect.open_ else Effect.close) ∧ o.2.2.2.2 = limit :=
+  ⟨RQ.Lemmas.WorldD.sized_stock_length w ac api ins x limit, RQ.Lemmas.WorldD.sized_stock_shape w ac api ins x limit⟩
+
+/-- … so what the stock sizing APIs submit meets the hypothesis of the whole-system reserve invariant (C09) -/
+theorem world_stock_api_inputs_ok (w : World) (ac : ApiCfg) (api : StockApi) (ins : Nat) (x : R) (limit : Option R) (ids : List Nat) :
+    ∀ i ∈ w.apiInputs ac (.stock api ins x limit) ids, RQ.Lemmas.WorldC.InputOk i :=
+  RQ.Lemmas.WorldD.apiInputs_stock_ok w ac api ins x limit ids
 
 end RQ.Props.C15
